@@ -20,6 +20,9 @@ import Ark.Model.Proto
     pscal  T p k coeffs                          &poly * k                                   (verdict only)
     evop   T p add|sub|mul|div a b               pointwise operations on `Evaluations`       (verdict only)
     pmul   T p a b                               &a * &b of dense polynomials                (verdict only)
+    spscal T p k i:c,…                           &sparse_univariate * k                      (verdict only)
+    mveval T p nv point c:v.e*v.e;…              multivariate SparsePolynomial::evaluate     (verdict only)
+    mle    T p nv add|neg|axpy f a b             DenseMultilinearExtension +, −, += (f, ·)   (verdict only)
     msm    T p A B scalars points                VariableBaseMSM::msm                        (verdict only)
     bmul   T p A B base scalars                  ScalarMul::batch_mul                        (verdict only)
     norm   T sw|te p points                      CurveGroup::normalize_batch                 (verdict only)
@@ -226,10 +229,31 @@ def parseDots? (s : String) : Option (List Nat) := mapM? parseHex? (s.splitOn ".
 
 /-! ### dispatch -/
 
+/-- `i:c` -/
+def parseIdxCoeff? (s : String) : Option (Nat × Nat) :=
+  match s.splitOn ":" with
+  | [i, c] => do let i ← parseHex? i; let c ← parseHex? c; some (i, c)
+  | _ => none
+
+/-- `v.e` -/
+def parseVarPow? (s : String) : Option (Nat × Nat) :=
+  match s.splitOn "." with
+  | [v, e] => do let v ← parseHex? v; let e ← parseHex? e; some (v, e)
+  | _ => none
+
+/-- `coeff:v.e*v.e…` (`coeff:_` for a constant term) -/
+def parseTerm? (s : String) : Option (Nat × List (Nat × Nat)) :=
+  match s.splitOn ":" with
+  | [c, mono] => do
+    let c ← parseHex? c
+    let l ← if mono == "_" then some [] else mapM? parseVarPow? (mono.splitOn "*")
+    some (c, l)
+  | _ => none
+
 /-- branch tag for the evidence: how many chunks the parallel branch splits `n` items into -/
 def chunkTag (n k : Nat) : String :=
   let c := (n + k - 1) / k
-  if c ≤ 1 then " @chunks≤1" else if n % k = 0 then " @chunks>1" else " @chunks>1+tail"
+  if c ≤ 1 then " @chunks1" else if n % k = 0 then " @chunksN" else " @chunksN+tail"
 
 def sfftNaive {p : Nat} : List (Fp p) → Fp p → Nat → Outcome (List (Fp p)) :=
   fun a omega _ => .ok (naiveDft a omega)
@@ -326,6 +350,28 @@ def run (op : String) (args : List String) (impl : String) : Option (String × S
       | "div" => some (fun x y => if y = 0 then 0 else x * y⁻¹)
       | _ => none
     some ("any", vs impl (showL (List.zipWith f a b)))
+  | "spscal", [_t, p, k, terms] => do
+    let p ← parseHex? p; let k ← parseHex? k
+    let ts ← if terms == "_" then some [] else mapM? parseIdxCoeff? (terms.splitOn ",")
+    let k := Fp.ofNat p k
+    let r := if k = 0 then [] else ts.map (fun (i, c) => hex i ++ ":" ++ hex (Fp.ofNat p c * k).val)
+    some ("any", vs impl (if r.isEmpty then "_" else joinWith "," r))
+  | "mveval", [_t, p, _nv, point, terms] => do
+    let p ← parseHex? p; let pt ← parseList? point
+    let pt := (toFp p pt).toArray
+    let ts ← mapM? parseTerm? (terms.splitOn ";")
+    let r := ts.foldl (fun (acc : Fp p) (c, m) =>
+      acc + m.foldl (fun (q : Fp p) (v, e) => q * Fp.pow (pt.getD v 0) e) (Fp.ofNat p c)) 0
+    some ("any", vs impl (hex r.val))
+  | "mle", [_t, p, _nv, kind, f, a, b] => do
+    let p ← parseHex? p; let f ← parseHex? f; let a ← parseList? a; let b ← parseList? b
+    let a := toFp p a; let b := toFp p b; let f := Fp.ofNat p f
+    let r ← match kind with
+      | "add" => some (List.zipWith (· + ·) a b)
+      | "neg" => some (a.map (- ·))
+      | "axpy" => some (List.zipWith (fun x y => x + f * y) a b)
+      | _ => none
+    some ("any", vs impl (showL r))
   | "pmul", [t, p, a, b] => do
     let t ← parseHex? t; let p ← parseHex? p; let a ← parseList? a; let b ← parseList? b
     if impl == "panic" then some ("any", "bad:panic") else
